@@ -376,6 +376,7 @@ def run(rep, facts, tier):
     rule_18_6(rep, fx)
 
     rule_18_8(rep, fx)
+    rule_18_9(rep, fx)
 
     # ------------------------------------------------------------ R18.7 crossed roles (shared lint, rdv/swaplint.py)
     from rdv import swaplint
@@ -602,3 +603,56 @@ def rule_18_8(rep, fx):
                 lambda a: a['unprotected'] or {'Datawriter': a['write'], 'Datareader': a['read'], 'Topic': a['write'] or a['read']}[a['entity']],
                 discr=lambda cond: 'entity' if 'Entity' in str(cond[2] if len(cond) > 2 else '') else None,
                 extra={'entity': ('Datawriter', 'Datareader', 'Topic')}, rows_with='entity')
+
+
+def rule_18_9(rep, fx):
+    """Partition expressions of a rule are matched against the partitions of the entity; `all` over an empty list is true (raised F32)."""
+    rep.rule('R18.9', 'the partitions of the entity reach the rule: every check_create_* / check_remote_* of the builtin access control hands check_entity a partition list that is '
+                      'not the empty array (Criterion::is_applicable asks whether ALL of them match: vacuously true for none, so every partition condition would be ignored); and a '
+                      'criterion parsed without a <partitions> section gets the default-partition pattern, so its list is never empty either')
+    n = 0
+    ce = [b for b in fx.bodies if b.key.endswith('AccessControlBuiltin::check_entity')]
+    if len(ce) != 1:
+        raise CheckBroken('check_entity not found')
+    pidx = [k for k, v in ce[0].local_names().items() if v == 'partitions' and 1 <= k <= ce[0].argc]
+    if len(pidx) != 1:
+        raise CheckBroken('check_entity has no parameter named partitions')
+    for b in fx.bodies:
+        og = None
+        for bb, t in b.calls():
+            if callee_res(t).endswith('AccessControlBuiltin::check_entity'):
+                og = og or Origins(b, summaries=False)
+                n += 1
+                v = og.of_operand(t['args'][pidx[0] - 1], bb, 'term')
+                empty = v[0] == 'agg' and str(v[1]).startswith('array') and not v[2]
+                rep.check(not empty, 'R18.9', '%s/partitions-passed' % b.key.rsplit('::', 1)[-1], 'partition list handed to check_entity is not the empty array',
+                          '%s hands check_entity an empty partition list: every rule counts as applicable whatever partitions it names - an allow rule limited to some partitions '
+                          'grants the topic everywhere, a deny rule limited to one denies it everywhere' % b.key.rsplit('::', 1)[-1], b.where(bb))
+    rep.floor('R18.9', n, 5, 'check_entity call sites')
+    cx = [b for b in fx.bodies if b.key.endswith('Criterion::from_xml') and b.kind in ('fn', 'assoc_fn')]
+    ok = False
+    if len(cx) == 1:
+        b = cx[0]
+        rep.analysed(b)
+        og = Origins(b, summaries=False)
+        P = Pos(b)
+        aggs = [(bb, si, st) for bb, si, st in b.statements() if st['s'] == 'assign' and st['rv']['r'] == 'agg' and strip_generics(st['rv'].get('adt', '')).endswith('Criterion')]
+        # the list that ends up in the field is built on a path that took the "is_empty" test of the parsed partitions: empty => a one-element default
+        edges = list(switch_edges(b, fx, og))
+        emp = [(s_, t_) for s_, t_, cond, lab in edges if cond[0] == 'call' and cond[1].endswith('is_empty') and isinstance(lab, bool) and lab is True]
+        dflt = []
+        for bb, si, st in b.statements():
+            if st['s'] == 'assign':
+                v = og._rvalue(st['rv'], bb, si, 0)
+                if term_has(v, lambda x: x[0] == 'call' and (x[1].endswith('String::new') or x[1].endswith('into_vec') or x[1].endswith('from_elem'))) and \
+                        any(P.can_reach((t_, 0), (bb, si)) for s_, t_ in emp):
+                    dflt.append((bb, si))
+        for bb, t in b.calls():
+            if callee_res(t).endswith(('String::new', '::into_vec', 'from_elem', 'Pattern::new')) and any(P.can_reach((t_, 0), (bb, 'term')) and not
+                                                                                                        any(P.can_reach((t2, 0), (bb, 'term')) for s2, t2, c2, l2 in edges if s2 == s_ and t2 != t_)
+                                                                                                        for s_, t_ in emp):
+                dflt.append((bb, 'term'))
+        ok = bool(aggs) and bool(emp) and bool(dflt)
+    rep.check(ok, 'R18.9', 'Criterion::from_xml/default-partition', 'no <partitions> section => the pattern of the default partition',
+              'a criterion without a <partitions> section is parsed with an empty partition list: once entities pass their (default) partition no such rule applies any more, or, '
+              'with an empty list on both sides, the condition is vacuous', cx[0].where() if cx else '')
